@@ -10,10 +10,11 @@ RULE = ("exhaustive: every (pattern, permutation) pair with |pattern|<=K, |perm|
         "position is pruned or accepted by a bound test, i.e. |perm| >= 2; distinct = distinct op lines")
 ASSUMPTIONS = [
     "model/implementation agreement outside the enumerated and sampled inputs is assumed",
-    "left_floor_and_ceiling (rotating deque) is modelled at specification level (arg-max floor/ceiling) and compared directly",
+    "colour lists have one entry per element (a shorter list makes the code raise IndexError; the model reads "
+    "with a default and the theorems state the length hypotheses)",
 ]
-PARTIAL = ["lfcDeque_eq_lfcSpec (deque algorithm of left_floor_and_ceiling) - correspondence only"]
-TRUSTED = ["Perm.left_floor_and_ceiling is modelled by its arg-max specification, not its deque code"]
+PARTIAL = []
+TRUSTED = []
 
 
 def worker_init():
@@ -23,11 +24,11 @@ def worker_init():
 
 
 def impl(op, a):
-    if op == "occ" or op == "occspec":
+    if op in ("occ", "occspec", "occdq"):
         return guarded(lambda: fseqs(Perm(pseq(a[0])).occurrences_in(Perm(pseq(a[1])))))
     if op == "occof":
         return guarded(lambda: fseqs(Perm(pseq(a[1])).occurrences_of(Perm(pseq(a[0])))))
-    if op == "occc":
+    if op in ("occc", "occcspec"):
         return guarded(lambda: fseqs(Perm(pseq(a[0])).occurrences_in(Perm(pseq(a[1])), pseq(a[2]), pseq(a[3]))))
     if op == "contains":
         return guarded(lambda: fbool(Perm(pseq(a[0])).contains(*[Perm(p) for p in pseqs(a[1])])))
@@ -45,7 +46,7 @@ def impl(op, a):
         return guarded(lambda: str(Perm(pseq(a[0])).count_occurrences_in(Perm(pseq(a[1])))))
     if op == "countof":
         return guarded(lambda: str(Perm(pseq(a[1])).count_occurrences_of(Perm(pseq(a[0])))))
-    if op == "lfc":
+    if op in ("lfc", "lfcspec"):
         return guarded(lambda: ";".join("%d,%d" % x for x in Perm(pseq(a[0])).left_floor_and_ceiling()))
     if op == "hist":
         # the same pattern object searched repeatedly (its table is memoised on first use)
@@ -90,9 +91,9 @@ def _occs(p, s, cp=None, cs=None):
 
 def oracle(op, a):
     """brute force from the property text: strictly increasing index tuples, order-isomorphic, lexicographic"""
-    if op in ("occ", "occof", "occspec"):
+    if op in ("occ", "occof", "occspec", "occdq"):
         return fseqs(_occs(pseq(a[0]), pseq(a[1])))
-    if op == "occc":
+    if op in ("occc", "occcspec"):
         return fseqs(_occs(pseq(a[0]), pseq(a[1]), pseq(a[2]), pseq(a[3])))
     if op == "contains":
         return fbool(all(_occs(p, pseq(a[0])) for p in pseqs(a[1])))
@@ -113,8 +114,11 @@ def oracle(op, a):
             outs.append(fseqs(o))
             outs.append(fbool(bool(o)))
         return "|".join(outs)
-    if op == "lfc":
+    if op in ("lfc", "lfcspec"):
         p = pseq(a[0])
+        if sorted(p) != list(range(len(p))):
+            # not a permutation: the property says nothing; the deque model is still compared with the code
+            return None
         res = []
         for k, v in enumerate(p):
             lo = [j for j in range(k) if p[j] < v]
@@ -127,7 +131,7 @@ def oracle(op, a):
 
 
 def nontrivial(op, a, out):
-    if op == "lfc":
+    if op in ("lfc", "lfcspec"):
         return len(pseq(a[0])) >= 3
     if op == "badarg":
         return False
@@ -186,12 +190,17 @@ def run(ctx):
     rng = ctx.rng
     K, N = (4, 7) if ctx.tier == "quick" else (5, 8)
     ctx.exhaustive = True
-    ctx.exhaustive_bound = "op occ/count: all pairs |pattern|<=%d x |perm|<=%d; lfc: all |p|<=%d" % (K, N, N)
+    ctx.exhaustive_bound = ("op occ/count: all pairs |pattern|<=%d x |perm|<=%d; lfc: all |p|<=%d and all sequences "
+                            "over {0,1,2} of length <=5; occc: all 2-colourings for (|pattern|,|perm|) in "
+                            "(1,1..3),(2,2..4),(3,3)" % (K, N, N))
     # corpus of past disagreements / boundary cases first
     ctx.compare("corpus", [
         "occ 2,0,1 5,3,0,4,2,1", "occ _ 1,2,3,0", "occ 0 _", "occ _ _", "occ 0,1 0", "count _ _",
         "occ 0,1,2 0,1,2", "occ 1,0 1,2,3,0", "contains 0,1,2 -", "avoids 0,1,2 -", "avoids _ _",
         "contains _ _", "in _ _", "in 0 _", "hist 0,1 0,1;1,0;0,1,2;_", "occc 0,1 0,1,2 0,1 0,0,1",
+        "occcspec 0,1 0,1,2 0,1 0,0,1", "occc _ 0,1 _ 0,0", "occc 0,1 0 0,0 1", "occdq 2,0,1 5,3,0,4,2,1",
+        "occdq _ 1,0", "occdq 0,1 0", "lfc 2,5,0,3,6,4,7,1", "lfcspec 2,5,0,3,6,4,7,1", "lfc _", "lfc 0",
+        "lfc 1,1,2,1,0,1,2,0,3,1", "lfc 3,3,3", "lfc 5,2", "lfc 0,2,2,1,1,0",
     ])
     pats = [p for k in range(K + 1) for p in perms(k)]
     lines = []
@@ -212,13 +221,30 @@ def run(ctx):
                 lines.append("count %s %s" % (fp, fs))
                 lines.append("in %s %s" % (fp, fs))
                 lines.append("occof %s %s" % (fp, fs))
+                lines.append("occdq %s %s" % (fp, fs))
             for q in itertools.combinations(small[1:], 2):
                 if rng.random() < 0.15:
                     lines.append("contains %s %s" % (fs, fseqs(q)))
                     lines.append("avoids %s %s" % (fs, fseqs(q)))
                     lines.append("avoidsset %s %s" % (fs, fseqs(q)))
     ctx.compare("exhaustive-derived", lines)
-    ctx.compare("lfc", ["lfc %s" % fseq(p) for n in range(N + 1) for p in perms(n)])
+    ctx.compare("lfc", ["%s %s" % (op, fseq(p)) for n in range(N + 1) for p in perms(n) for op in ("lfc", "lfcspec")])
+    # the deque algorithm on sequences with repeated / out-of-range entries (Perm() does not validate):
+    # no oracle (the property speaks of permutations), model against code only
+    lines = ["lfc %s" % fseq(s) for n in range(1, 6) for s in itertools.product(range(3), repeat=n)]
+    for _ in range(300):
+        n = rng.randrange(2, 14)
+        lines.append("lfc %s" % fseq(tuple(rng.randrange(0, rng.choice([2, 4, 20])) for _ in range(n))))
+    ctx.compare("lfc-nonperm", lines)
+    # colourings, exhaustive: every pattern/permutation pair below with every 2-colouring of both
+    lines = []
+    for k, n in ((1, 1), (1, 2), (1, 3), (2, 2), (2, 3), (2, 4), (3, 3)):
+        for p in perms(k):
+            for s in perms(n):
+                for cp in itertools.product(range(2), repeat=k):
+                    for cs in itertools.product(range(2), repeat=n):
+                        lines.append("occc %s %s %s %s" % (fseq(p), fseq(s), fseq(cp), fseq(cs)))
+    ctx.compare("exhaustive-coloured", lines)
     # random large with planted occurrences
     R = 3000 if ctx.tier == "quick" else 40000
     lines = []
@@ -229,7 +255,7 @@ def run(ctx):
         s = planted(rng, p, n)
         r = rng.random()
         if r < 0.5:
-            lines.append("occ %s %s" % (fseq(p), fseq(s)))
+            lines.append("%s %s %s" % ("occdq" if rng.random() < 0.3 else "occ", fseq(p), fseq(s)))
         elif r < 0.6:
             lines.append("count %s %s" % (fseq(p), fseq(s)))
         elif r < 0.7:
@@ -244,7 +270,16 @@ def run(ctx):
             nc = rng.randrange(1, 3)
             cp = tuple(rng.randrange(nc + 1) for _ in range(k))
             cs = tuple(rng.randrange(nc + 1) for _ in range(n))
-            lines.append("occc %s %s %s %s" % (fseq(p), fseq(s), fseq(cp), fseq(cs)))
+            if rng.random() < 0.5:
+                # plant a matching colouring on one occurrence (if any) so that the filter keeps something
+                o = _occs(p, s)
+                if o:
+                    c = rng.choice(o)
+                    cs = list(cs)
+                    for j, i in enumerate(c):
+                        cs[i] = cp[j]
+                    cs = tuple(cs)
+            lines.append("%s %s %s %s %s" % ("occcspec" if rng.random() < 0.2 else "occc", fseq(p), fseq(s), fseq(cp), fseq(cs)))
         else:
             ss = [planted(rng, p, rng.randrange(0, 11)) for _ in range(rng.randrange(2, 6))]
             if rng.random() < 0.5:
@@ -252,5 +287,5 @@ def run(ctx):
             lines.append("hist %s %s" % (fseq(p), fseqs(ss)))
     ctx.compare("random-planted", lines)
     ctx.compare("malformed", ["badarg %s %s" % (fseq(s), k) for s in [(), (0,), (1, 0, 2)] for k in ("contains", "avoids", "in")])
-    lines = ["lfc %s" % fseq(rand_perm(rng, rng.randrange(9, 40))) for _ in range(300)]
+    lines = ["%s %s" % (rng.choice(["lfc", "lfc", "lfcspec"]), fseq(rand_perm(rng, rng.randrange(9, 40)))) for _ in range(300)]
     ctx.compare("lfc-random", lines)
